@@ -89,6 +89,67 @@ func main() {
 	qd := func(name, desc, tier string, size, chunk int64, run func(c *drv.Ctx, lo, hi int64)) {
 		ck.Domains = append(ck.Domains, &drv.Domain{Name: name, Desc: desc, Tier: tier, Size: size, Chunk: chunk, Run: run})
 	}
+	// output aliasing an input: the library calls these helpers in place (w1 = UseHint(w1, h), t1 = Power2Round(t1), z = z + y ...)
+	type aop struct {
+		op    string
+		modes int
+	}
+	aops := []aop{{"add", 5}, {"sub", 5}, {"pointwise", 5}, {"p2r", 3}, {"decompose", 3}, {"usehint", 3}, {"makehint", 3}}
+	qd("output-aliasing", "polyAdd / polySub / polyPointWiseMontgomery with c==a, c==b, a==b, c==a==b, and Power2Round / Decompose / UseHint / MakeHint with an output aliasing either input, on 6 structured operand pairs: the aliasing modes the library's own call sites use (add/sub c==a, pointwise c==b, p2r/decompose a1==a, usehint b==a) give what separate buffers give; the other modes are measured and only counted", "", int64(len(aops))*6, 6, func(c *drv.Ctx, lo, hi int64) {
+		for i := lo; i < hi; i++ {
+			c.At(i)
+			o := aops[i/6]
+			pat := int(i % 6)
+			var a, b [dilithium.N]int32
+			for k := range a {
+				switch o.op {
+				case "add", "sub":
+					a[k] = int32((k*7919+pat*104729)%(2*Q-1)) - (Q - 1)
+					b[k] = int32((k*15485863+pat*31)%(2*Q-1)) - (Q - 1)
+				case "pointwise":
+					a[k] = int32((k*7919+pat*104729)%(2*Q-1)) - (Q - 1)
+					b[k] = int32((k*15485863+pat*31+1)%(2*Q-1)) - (Q - 1)
+				case "p2r", "decompose":
+					a[k] = int32((int64(k)*32749*int64(pat+1) + int64(pat)*4099) % Q)
+					if k < 8 {
+						a[k] = []int32{0, 1, Q - 1, 4096, 4097, (Q - 1) / 2, Q - 1 - 261888, 261888}[k]
+					}
+				case "usehint":
+					a[k] = int32((int64(k)*65521*int64(pat+1) + int64(pat)) % Q)
+					b[k] = int32((k + pat) & 1)
+				case "makehint":
+					a[k] = int32((k*2039+pat)%(2*261888+1)) - 261888 // a0 in [-gamma2, gamma2]
+					b[k] = int32((k*7 + pat) % 16)               // a1 in 0..15
+				}
+			}
+			for mode := 1; mode < o.modes; mode++ {
+				aa, bb := a, b
+				ea, eb := a, b
+				if (o.op == "add" || o.op == "sub" || o.op == "pointwise") && mode >= 3 {
+					eb = ea // a==b: expected = separate buffers holding equal values
+				}
+				e1, e2 := dilithium.VerifPolyAliased(o.op, 0, &ea, &eb)
+				g1, g2 := dilithium.VerifPolyAliased(o.op, mode, &aa, &bb)
+				c.Eval(1)
+				c.Nontrivial(1)
+				usedByLibrary := map[string]int{"add": 1, "sub": 1, "pointwise": 2, "p2r": 1, "decompose": 1, "usehint": 1}[o.op] == mode
+				if (e1 != g1 || e2 != g2) && !usedByLibrary {
+					// an aliasing mode no call site of the library uses: an operand combination the arithmetic cannot meet — counted, not a violation
+					c.Count("diagnostic:aliasing-mode-unused-by-the-library-differs:"+o.op, 1)
+					continue
+				}
+				if e1 != g1 || e2 != g2 {
+					k := 0
+					for ; k < dilithium.N && e1[k] == g1[k] && e2[k] == g2[k]; k++ {
+					}
+					c.Fail(i, "output-aliasing:"+o.op, map[string]any{"op": o.op, "aliasing_mode": mode, "operand_pattern": pat, "first_differing_coefficient": k,
+						"modes": "binary ops: 1 c==a, 2 c==b, 3 a==b, 4 c==a==b; p2r/decompose: 1 a1==a, 2 a0==a; usehint: 1 b==a, 2 b==h; makehint: 1 h==a0, 2 h==a1"})
+					break
+				}
+			}
+			c.Outcome(o.op)
+		}
+	})
 	qd("power2round", "all a in [0,q): a = a1*2^13 + a0 with -2^12 < a0 <= 2^12", "", Q, 1<<16, func(c *drv.Ctx, lo, hi int64) {
 		c.At(lo)
 		for a := lo; a < hi; a++ {
